@@ -102,6 +102,17 @@ fn main() {
                 emit(one(f[0] == "dec_all", f[1], &bs));
             }
         }
+        // enum_cf_all <enum> <body hex>: every (class, instr) x this body, with a correct APDU length
+        "enum_cf_all" => {
+            let body = unhex(f[2]);
+            for c in 0..=255u8 {
+                for i in 0..=255u8 {
+                    let mut bs = vec![c, i, body.len() as u8];
+                    bs.extend_from_slice(&body);
+                    emit(one(false, f[1], &bs));
+                }
+            }
+        }
         // dec_trunc|enum_trunc <name> <hex>: every proper prefix
         "dec_trunc" | "enum_trunc" => {
             let bs = unhex(f[2]);
